@@ -104,6 +104,44 @@ func c07Sender(c *Ctx) {
 	}
 	// the receive is in a loop
 	c.Check(InLoop(s.in.Block()), "sender-never-blocks", "consumer loops", p.InstrPos(s.in), "", "the consumer receives only once")
+	// the consumer waits nowhere else: any other blocking channel operation in its loop (a bare receive from a timer that
+	// may have been stopped and drained, a send) can park the only receiver of the unbuffered request channel for good
+	nwait := 0
+	for _, b := range s.fn.Blocks {
+		if !InLoop(b) {
+			continue
+		}
+		for _, in := range b.Instrs {
+			if in == s.in {
+				continue
+			}
+			what := ""
+			switch x := in.(type) {
+			case *ssa.UnOp:
+				if x.Op == token.ARROW {
+					// the drain of a reused timer (`if !t.Stop() { <-t.C }`) completes iff a value is still to come
+					if tm := timerOfC(x.X); tm != nil && timerLiveAt(s.fn, tm, x) {
+						c.Ok("sender-never-blocks", fmt.Sprintf("%s drains its timer at %s", shortFn(s.fn), p.InstrPos(x)), p.InstrPos(x), "on every path to this receive the timer is armed or has fired without having been drained")
+						continue
+					}
+					what = "receives from " + RenderN(x.X, 2)
+				}
+			case *ssa.Send:
+				what = "sends on " + RenderN(x.Chan, 2)
+			case *ssa.Select:
+				if x.Blocking {
+					what = "selects without the request channel"
+				}
+			}
+			if what != "" {
+				nwait++
+				c.Violate("sender-never-blocks", fmt.Sprintf("%s waits elsewhere #%d", shortFn(s.fn), nwait), p.InstrPos(in), "besides its select on the request channel the writer goroutine "+what+" and blocks there: on a path where nothing can complete that operation (e.g. a timer that was stopped and drained and is not re-armed) it never returns to the request channel and every later Send blocks forever")
+			}
+		}
+	}
+	if nwait == 0 {
+		c.Ok("sender-never-blocks", shortFn(s.fn)+" waits only on the request channel's select", p.InstrPos(s.in), "no other blocking channel operation in the writer loop")
+	}
 	// started on every successful New: a `go consumer` dominates each return with a non-nil channel
 	var goes []*ssa.Go
 	for _, call := range Calls(newFn) {
@@ -575,3 +613,103 @@ func existsPredicate(f *ssa.Function) bool {
 	}
 	return true
 }
+
+// timerOfC: v is t.C of a *time.Timer value t created in the function; returns t.
+func timerOfC(v ssa.Value) ssa.Value {
+	ld, ok := v.(*ssa.UnOp)
+	if !ok {
+		return nil
+	}
+	fa, ok := ld.X.(*ssa.FieldAddr)
+	if !ok || fieldNameOf(fa) != "C" {
+		return nil
+	}
+	if call, ok := fa.X.(*ssa.Call); ok && CalleeIs(call, "time", "NewTimer") {
+		return call
+	}
+	return nil
+}
+
+// timerLiveAt: typestate of a reused timer over the function's CFG. A timer is LIVE (armed, or fired with its value still
+// in the channel) or DEAD (stopped, or fired and drained: no value will ever arrive). NewTimer/Reset make it live; a
+// receive from t.C (bare or as the chosen select case) and a Stop that returned true make it dead; a Stop that returned
+// false leaves it as it was. The receive at `at` completes iff DEAD is not a possible state there.
+func timerLiveAt(fn *ssa.Function, tm ssa.Value, at *ssa.UnOp) bool {
+	const live, dead = 1, 2
+	isT := func(v ssa.Value) bool { return v == tm }
+	in := map[*ssa.BasicBlock]int{}
+	var start *ssa.BasicBlock
+	if ti, ok := tm.(ssa.Instruction); ok {
+		start = ti.Block()
+	}
+	if start == nil {
+		return false
+	}
+	// state at the end of a block given the state at its start; also reports the state right before `at`
+	atState := -1
+	run := func(b *ssa.BasicBlock, st int) int {
+		for _, ins := range b.Instrs {
+			if ins == ssa.Instruction(at) {
+				atState |= 0
+				if atState < 0 {
+					atState = 0
+				}
+				atState |= st
+			}
+			switch x := ins.(type) {
+			case *ssa.Call:
+				if x == tm {
+					st = live
+				}
+				if f := x.Call.StaticCallee(); f != nil && len(x.Call.Args) > 0 && isT(x.Call.Args[0]) {
+					switch {
+					case MethodIs(f, "time", "Timer", "Reset"):
+						st = live
+					}
+				}
+			case *ssa.UnOp:
+				if x.Op == token.ARROW && timerOfC(x.X) == tm {
+					st = dead
+				}
+			}
+		}
+		return st
+	}
+	work := []*ssa.BasicBlock{start}
+	in[start] = 0
+	for len(work) > 0 {
+		b := work[0]
+		work = work[1:]
+		out := run(b, in[b])
+		for i, sc := range b.Succs {
+			v := out
+			if iff, ok := b.Instrs[len(b.Instrs)-1].(*ssa.If); ok {
+				atom, pol := condAtom(iff.Cond)
+				takenTrue := (i == 0) == pol // the atom is true on this edge
+				// Stop() result
+				if call, ok := atom.(*ssa.Call); ok && len(call.Call.Args) > 0 && isT(call.Call.Args[0]) && MethodIs(call.Call.StaticCallee(), "time", "Timer", "Stop") {
+					if takenTrue {
+						v = dead
+					}
+				}
+				// select index == k where case k receives from t.C
+				if bo, ok := atom.(*ssa.BinOp); ok && bo.Op == token.EQL {
+					if ex, ok := bo.X.(*ssa.Extract); ok && ex.Index == 0 {
+						if sel, ok := ex.Tuple.(*ssa.Select); ok {
+							if k, isC := ConstInt(bo.Y); isC && int(k) < len(sel.States) && sel.States[k].Send == nil && timerOfC(sel.States[k].Chan) == tm && takenTrue {
+								v = dead
+							}
+						}
+					}
+				}
+			}
+			if in[sc]|v != in[sc] || (in[sc] == 0 && v == 0 && sc != start && !hasKey(in, sc)) {
+				in[sc] |= v
+				work = append(work, sc)
+			}
+		}
+	}
+	return atState >= 0 && atState&dead == 0 && atState&live != 0
+}
+
+func hasKey(m map[*ssa.BasicBlock]int, k *ssa.BasicBlock) bool { _, ok := m[k]; return ok }
